@@ -53,6 +53,7 @@ structure State where
   closed : Bool := false
   -- ghost
   stream : List Nat := []   -- all published values, oldest first; the value at position p is `stream[p-1]`
+  inWake : Nat := 0         -- `push_lk` calls that have unlocked for their wake-up pass and not yet re-locked
   deriving Repr
 
 inductive Op where
@@ -66,6 +67,7 @@ inductive Op where
   | close
   | kick (sid : Nat)
   | leave (h : Nat)
+  | relock                      -- second lock region of `push_lk`: after the wake-up pass
   deriving Repr, DecidableEq
 
 inductive Res where
@@ -204,16 +206,23 @@ def wake (r : Reg) : Reg := if r.used = true then { r with awt := false } else r
 def wokenOf (regs : List Reg) : List Nat :=
   (regs.filter (fun x => x.used && x.awt)).map (·.sub)
 
-/-- `push_lk(count)` after the values were put in front of `_q`; `cl` is the value of `_closed` it runs with
-(`close()` sets the flag in the same lock region) -/
+/-- `push_lk(count)`, first lock region (after the values were put in front of `_q`): advance the position, take the
+awaiters, trim, then *unlock* — the resumptions run outside the lock, so any step of any party (in particular a
+resumed coroutine going straight into another `next()`) can come before the second region `stepRelock`.
+`cl` is the value of `_closed` it runs with (`close()` sets the flag *before* calling `push_lk`, in this region). -/
 def pushLk (s : State) (vals : List Nat) (cl : Bool) : State × Res :=
   ({ s with pos := s.pos + vals.length,
             q := (vals.reverse ++ s.q).take
                    (min (needLen s.regs (s.pos + vals.length) s.minLen) (capMin s.maxLen (vals.length + s.q.length))),
             regs := s.regs.map wake,
             closed := cl,
-            stream := s.stream ++ vals },
+            stream := s.stream ++ vals,
+            inWake := s.inWake + 1 },
    Res.woken (wokenOf s.regs))
+
+/-- `push_lk`, second lock region: `lk.lock(); std::swap(wk, _wakeup_buffer);` and the caller's unlock — nothing of the
+modelled state changes (for `close()` too: the flag was set in the first region) -/
+def stepRelock (s : State) : State × Res := ({ s with inWake := s.inWake - 1 }, Res.unit)
 
 /-- `push(val)` / `push(from, to)`; an empty batch does nothing -/
 def stepPush (s : State) (vals : List Nat) : State × Res :=
@@ -257,6 +266,7 @@ def step (s : State) (op : Op) : State × Res :=
   | Op.close => stepClose s
   | Op.kick sid => stepKick s sid
   | Op.leave h => stepLeave s h
+  | Op.relock => stepRelock s
 
 def run (s : State) (ops : List Op) : State := ops.foldl (fun s op => (step s op).1) s
 
@@ -291,9 +301,19 @@ def stepBlockingResumeAsIs (s : State) (h : Nat) : State × Res :=
       | none => (setReg s h { r with phase := Phase.idle }, Res.value none)
     else (s, Res.bad)
 
+/-- a `close()` that sets `_closed` only *after* `push_lk` (second region instead of first): the wake-up pass runs
+while the queue still reports open.  Not the code; kept to show (Props/C16) why the order matters. -/
+def stepCloseLateBegin (s : State) : State × Res :=
+  if s.closed = true then (s, Res.unit) else pushLk s [] false
+
+def stepCloseLateEnd (s : State) : State × Res :=
+  ({ s with closed := true, inWake := s.inWake - 1 }, Res.unit)
+
 inductive OpAsIs where
   | op (o : Op)
   | blockingResume (h : Nat)
+  | closeLateBegin
+  | closeLateEnd
   deriving Repr, DecidableEq
 
 def stepAsIs (s : State) (o : OpAsIs) : State × Res :=
@@ -301,6 +321,8 @@ def stepAsIs (s : State) (o : OpAsIs) : State × Res :=
   | OpAsIs.op (Op.advanceSuspend h) => stepAdvanceSuspendAsIs s h
   | OpAsIs.op o => step s o
   | OpAsIs.blockingResume h => stepBlockingResumeAsIs s h
+  | OpAsIs.closeLateBegin => stepCloseLateBegin s
+  | OpAsIs.closeLateEnd => stepCloseLateEnd s
 
 def runAsIs (s : State) (ops : List OpAsIs) : State := ops.foldl (fun s op => (stepAsIs s op).1) s
 
